@@ -434,7 +434,13 @@ _warc_read(struct archive_read *a, const void **buf, size_t *bsz, int64_t *off)
 		/* big catastrophe */
 		return (int)nrd;
 	} else if (nrd == 0) {
-		goto eof;
+		/* the input ends before the declared content length */
+		archive_set_error(&a->archive, ARCHIVE_ERRNO_FILE_FORMAT,
+		    "Truncated WARC record");
+		*buf = NULL;
+		*bsz = 0U;
+		*off = w->cntoff;
+		return (ARCHIVE_FATAL);
 	} else if ((size_t)nrd > w->cntlen - w->cntoff) {
 		/* clamp to content-length */
 		nrd = w->cntlen - w->cntoff;
